@@ -1178,7 +1178,7 @@ func (fr *Frame) ghostAnchors(event string, st *State) {
 }
 
 // eventAsserts checks `assert @<event-glob> expr` clauses for non-call events (map reads / writes).
-func (fr *Frame) eventAsserts(event string, st *State, pos token.Pos) {
+func (fr *Frame) eventAsserts(event string, st *State, pos token.Pos, vars ...map[string]SVal) {
 	fx := fr.fx
 	if !fr.top || fx.contract == nil {
 		return
@@ -1189,7 +1189,12 @@ func (fr *Frame) eventAsserts(event string, st *State, pos token.Pos) {
 		}
 		fx.anchorHit(a.Anchor)
 		env := fr.specEnv(st, nil, nil)
-		g, err := env.evalBool(a.Clause.Expr)
+		for _, vm := range vars {
+			for k, v := range vm {
+				env.vars[k] = v
+			}
+		}
+		g, err := env.evalGoal(a.Clause.Expr)
 		if err != nil {
 			fx.unsupported = append(fx.unsupported, fmt.Sprintf("assert @%s: %v", a.Anchor, err))
 			continue
